@@ -37,6 +37,14 @@ def order_scenarios(rng, n):
                 op['n'] = rng.randint(4, 24)
             if op.get('iterable_len') is not None:
                 op['iterable_len'] = min(op['iterable_len'], op['n'])
+            if rng.random() < .25:
+                # a look-ahead bound below the chunk size slows the call down but does not change which chunk goes where
+                op['chunk_size'] = rng.choice([3, 4, 5])
+                op.pop('n_splits', None)
+                op['max_tasks_active'] = rng.choice([1, 2])
+                op['n'] = max(op['n'], 12)
+                if op.get('iterable_len') is not None:
+                    op['iterable_len'] = op['n']
         if rng.random() < .3:
             # apply submissions before / between the calls advance the same counter: the numbering of a call still starts at 0
             k = rng.randint(1, 5)
